@@ -470,14 +470,16 @@ Lemma del_msg_good dr f s c n sid u req hard :
   good3 s c -> u <> 0%N -> no_fault_or_first f n ->
   good3 (h_st (del_msg dr f s c n sid u req hard)) (h_ca (del_msg dr f s c n sid u req hard)).
 Proof.
-  intros [G S] NZ NF. unfold del_msg.
-  destruct (negb (is_deleter (user_mode c u)) && negb (is_reader (user_mode c u))) eqn:M; [split; assumption|].
+  intros [G S] NZ NF. unfold del_msg. cbv zeta.
+  destruct (negb (hard && is_deleter (user_mode c u)) && negb (is_reader (user_mode c u))) eqn:M; [split; assumption|].
   destruct (dr (c_lastid c) req) as [ranges|]; [|split; assumption].
   unfold call. destruct NF as [[N1 [N2 N3]]|NF]; [|rewrite NF; cbn [negb]; split; assumption].
   rewrite N1, N2, N3. cbn [negb h_st h_ca].
   set (delid := c_delid c + 1).
   assert (alookup u (c_users c) = Some (get_pud c u)) as L.
-  { apply andb_false_iff in M. destruct M as [M|M]; apply negb_false_iff in M; eapply get_pud_has; exact M. }
+  { apply andb_false_iff in M. destruct M as [M|M]; apply negb_false_iff in M.
+    - apply andb_true_iff in M. destruct M as [_ M]. eapply get_pud_has; exact M.
+    - eapply get_pud_has; exact M. }
   destruct G as [Wf C]. pose proof C as C0. apply coh_parts in C0. destruct C0 as [[E1 [E2 [E3 E4]]] _].
   set (fu := if hard && is_deleter (user_mode c u) then 0%N else u).
   set (s1 := st_delid delid (ad_msg_delete_list s delid fu ranges)).
